@@ -210,8 +210,20 @@ def gen_network(rng) -> dict:  # noqa: ANN001
     listed_with_zero = rng.random() < 0.5
     if listed_with_zero and any(n == 0 for n in labels.values()):
         feats.add("compound_listed_with_0_positions")
-    return {"spec": {"components": comps}, "labels": {c: n for c, n in labels.items() if n > 0 or listed_with_zero}, "maps": maps, "initial_labels": init,
-            "features": sorted(feats), "names": names}
+    net = {"spec": {"components": comps}, "labels": {c: n for c, n in labels.items() if n > 0 or listed_with_zero}, "maps": maps, "initial_labels": init,
+           "features": sorted(feats), "names": names}
+    if rng.random() < 0.25:
+        # compound names that contain the separator of isotopomer names themselves (BiGG-style ids: glc__D, lac__L)
+        import json
+
+        ren = dict(zip(["A", "B", "C", "D", "E"], ["glc__D", "lac__L", "ala__L_c", "pyr__c", "mal__L"]))
+        text = json.dumps(net)
+        for old_, new_ in ren.items():
+            text = text.replace(json.dumps(old_), json.dumps(new_))
+        net = json.loads(text)
+        net["labels"] = {k: int(v) for k, v in net["labels"].items()}
+        net["features"] = sorted({*net["features"], "compound_names_containing_the_isotopomer_separator"})
+    return net
 
 
 def run_case(case: dict) -> dict:
